@@ -212,6 +212,8 @@ def oracle(line, out):
                 dead = True
             elif pending is not None and last_recv <= pending and 5 * (now - pending) > 6 * H * S + 5 * S:
                 hard.append('tick at %d: TestRequest unanswered for more than the period but no Logout' % now)
+            if (sg['sd'] or sg['st'] == 'session_terminated') and '5' not in types:
+                hard.append('tick at %d ended the session without writing a Logout' % now)
             if [t for t in types if t not in ('0', '1', '5')]:
                 hard.append('tick wrote %s' % types)
             if types:
